@@ -80,6 +80,16 @@ HAND_TEXTS = [
                              "    A(::std::vec::Vec<&'a T>, U),\n    B { x: ::std::vec::Vec<&'b T>, y: &'a U, z: &'b U },\n}\n"),
     ("two-lifetimes-phantom", "#[derive(::educe::Educe)]\n#[educe(Debug, PartialEq, Default)]\npub struct Ty<'a, 'b, T>(\n"
                               "    pub ::core::marker::PhantomData<&'a T>,\n    pub ::core::marker::PhantomData<&'b T>,\n    pub ::core::option::Option<&'a T>,\n);\n"),
+    ("two-lifetimes-in-tuples", "#[derive(::educe::Educe)]\n#[educe(Debug, Clone, PartialEq, Eq, PartialOrd, Ord, Hash)]\n"
+                                "pub struct Ty<'a, 'b, T> {\n    pub a: (&'a T, u8),\n    pub b: (&'b T, u8),\n}\n"),
+    ("two-lifetimes-in-arrays", "#[derive(::educe::Educe)]\n#[educe(Debug, Clone, PartialEq, Hash)]\n"
+                                "pub enum Ty<'a, 'b, T> {\n    A([&'a T; 2], [&'b T; 2]),\n    B { x: [(&'b T, &'a T); 1], y: [(&'a T, &'b T); 1] },\n}\n"),
+    # (no PartialEq: comparing function pointers draws rustc's own lint, with std's derive as well)
+    ("two-lifetimes-in-fn-pointers", "#[derive(::educe::Educe)]\n#[educe(Debug, Clone, Hash)]\n"
+                                     "pub struct Ty<'a, 'b, T>(pub fn(&'a T) -> u8, pub fn(&'b T) -> u8, pub ::core::option::Option<(&'a T,)>, pub ::core::option::Option<(&'b T,)>);\n"),
+    ("two-lifetimes-and-a-bystander", "#[derive(::educe::Educe)]\n#[educe(Debug, Clone, PartialEq, Hash, Default)]\n"
+                                      "pub struct Ty<'a, 'b, T, U> {\n    pub m: ::core::marker::PhantomData<U>,\n    pub a: ::core::option::Option<&'a T>,\n"
+                                      "    pub b: ::core::option::Option<&'b T>,\n    pub n: ::core::option::Option<U>,\n}\n"),
     ("two-lifetimes-no-parameter", "#[derive(::educe::Educe)]\n#[educe(Debug, Clone, PartialEq, Eq, PartialOrd, Ord, Hash)]\n"
                                    "pub struct Ty<'a, 'b> {\n    pub a: &'a str,\n    pub b: &'b str,\n}\n"),
 ]
